@@ -39,6 +39,50 @@ Definition check_step (st : cst) (o : op) (b : obs) : option cst :=
   | _, _ => None
   end.
 
+(* The same judgement for a ring whose pointers stood at [base] when the observation began: the abstract
+   state counts bytes from the start of the observation, stride boundaries are about ABSOLUTE positions. *)
+Definition check_step_at (base : Z) (st : cst) (o : op) (b : obs) : option cst :=
+  let A := acc st in let c := consumed st in
+  let fin (A' : list Z) (c' : Z) :=
+    if o_readable b =? zlen A' - c' then Some {| acc := A'; consumed := c' |} else None in
+  let data_ok (D : list Z) :=
+    (c + zlen D <=? zlen A) && zlist_eqb D (zslice A c (zlen D)) in
+  match o, o_ret b with
+  | _, RPanic => None
+  | Write d, RWritten n =>
+      if (0 <=? n) && (n <=? zlen d) then fin (A ++ zfirstn n d) c else None
+  | Read n, RData D =>
+      if data_ok D && (zlen D <=? Z.max 0 n) then fin A (c + zlen D) else None
+  | ReadAll, RData D =>
+      if data_ok D then fin A (c + zlen D) else None
+  | ReadMultipleOf k, RData D =>
+      if data_ok D && (0 <? k) && (zlen D mod k =? 0) then fin A (c + zlen D) else None
+  | DiscardStride k, RNil =>
+      let c' := zlen A - o_readable b in
+      if (0 <? k) && (c <=? c') && (c' <=? zlen A)
+         && (if base + c <=? (base + zlen A) - (base + zlen A) mod k
+             then is_boundary k (base + c') else c' =? c)
+      then fin A c' else None
+  | DiscardAll, RNil =>
+      let c' := zlen A - o_readable b in
+      if (c <=? c') && (c' <=? zlen A) then fin A c' else None
+  | _, RErr => fin A c
+  | _, _ => None
+  end.
+
+Fixpoint check_from_at (base : Z) (st : cst) (h : list (op * obs)) : bool :=
+  match h with
+  | [] => true
+  | (o, b) :: rest =>
+      match check_step_at base st o b with
+      | Some st' => check_from_at base st' rest
+      | None => false
+      end
+  end.
+
+Definition C18_check_at (base : Z) (h : list (op * obs)) : bool :=
+  check_from_at base {| acc := []; consumed := 0 |} h.
+
 Fixpoint check_from (st : cst) (h : list (op * obs)) : bool :=
   match h with
   | [] => true
